@@ -796,4 +796,79 @@ def run(chk):
                         if not pre and not after:
                             chk.violation(r_fs, key, "%s: `%s` is tested against its sentinel at line %d and defaulted from the current cell, but nothing in the loop body (line %d) sets it unconditionally before the test%s" % (f["q"], path, iff["l"], lp["l"], ": its variable is freshly value-initialised in every iteration, so the sentinel (a negative number) is never there and the record's explicit/defaulted distinction is lost" if fresh else " and its variable is declared outside the loop: from the second iteration on the test sees the previous cell's value, so the default of the first cell is kept for every later cell of the record"), f["file"], iff["l"])
 
+    # ---- C06.stable: re-ordering an ordered connection set leaves it as it is
+    r_st = chk.rule("C06.stable", "TRACK ordering (WellConnections::orderTRACK swaps the result of a nearest-connection scan into each position; every update of a well re-orders) is idempotent: the scan runs upward from the first unplaced position and replaces its candidate only on a strictly smaller key (smaller I/J distance, or equal I/J distance and strictly smaller depth difference), so of equally near connections the one already in place stays", floor=4)
+    ot = fx.fn("Opm::WellConnections::orderTRACK")
+    if len(ot) != 1:
+        raise core.AnalysisBroken("WellConnections::orderTRACK not found")
+    ot = ot[0]
+    scans = {n.get("m") for n in walk(ot["body"]) if n["k"] == "MCall" and show(strip(n.get("obj") or {})) == "this" and n.get("m") not in (None,) and "size_t" in (n.get("t") or "") + "size_t" and any(x["k"] == "Decl" and any(isinstance(v.get("init"), dict) and strip(v["init"]) is n for v in x["vars"]) for x in walk(ot["body"]))}
+    scans = {m_ for m_ in scans if fx.fn("Opm::WellConnections::" + m_)}
+    if len(scans) != 1:
+        raise core.AnalysisBroken("orderTRACK: the scan function whose result is swapped into place was not identified (%s)" % sorted(scans))
+    sc = fx.fn("Opm::WellConnections::" + list(scans)[0])[0]
+    rets = [n for n in walk(sc["body"]) if n["k"] == "Return" and isinstance(n.get("e"), dict)]
+    res = strip(rets[-1]["e"]).get("n") if rets and strip(rets[-1]["e"]).get("k") == "Ref" else None
+    loops_s = [n for n in stmt_list(sc["body"]) if n["k"] == "For"]
+    if res is None or len(loops_s) != 1:
+        raise core.AnalysisBroken("%s: result variable / scan loop not found" % sc["q"])
+    lp = loops_s[0]
+    lv = lp["init"]["vars"][0]["n"]
+    start = show(lp["init"]["vars"][0].get("init"))
+    up = start in [p_["n"] for p_ in sc["params"]] and show(lp["cond"]) == "(%s < this.m_connections.size())" % lv and show(lp.get("inc")) in ("(++%s)" % lv, "(%s++)" % lv)
+    chk.instance(r_st, "scan:direction", sample=dict(function=sc["q"], start=start, cond=show(lp["cond"]), step=show(lp.get("inc"))))
+    if not up:
+        chk.violation(r_st, "scan:direction", "%s no longer scans upward from its start position to the end of m_connections (for (%s = %s; %s; %s))" % (sc["q"], lv, start, show(lp["cond"]), show(lp.get("inc"))), sc["file"], lp["l"])
+    outer = {v["n"] for n in stmt_list(sc["body"]) if n["k"] == "Decl" for v in n["vars"]}
+    found = []
+
+    def rec(n, conds):
+        if n.get("k") == "Bin" and n.get("asg") and n.get("op") == "=" and strip(n["c"][0]).get("n") == res and strip(n["c"][0]).get("k") == "Ref":
+            found.append((n, list(conds)))
+        if n.get("k") == "If" and isinstance(n.get("cond"), dict):
+            if isinstance(n.get("then"), dict):
+                rec(n["then"], conds + [(n["cond"], n)])
+            if isinstance(n.get("else"), dict):
+                rec(n["else"], conds)
+            return
+        from verif.tree import children as _ch
+        for c in _ch(n):
+            rec(c, conds)
+    rec(lp["body"], [])
+    if not found:
+        raise core.AnalysisBroken("%s: no assignment to the result `%s` in the scan loop" % (sc["q"], res))
+    for asg, conds in found:
+        key = "scan:replace@%s" % "&".join(show(c)[:30] for c, _ in conds)
+        ok = show(strip(asg["c"][1])) == lv and bool(conds)
+        why = ""
+        for i_, (c, iff) in enumerate(conds):
+            c = strip(c)
+            op = c.get("op")
+            kids = c.get("c") or []
+            if c.get("k") != "Bin" or len(kids) != 2:
+                ok, why = False, "condition `%s` is not a comparison" % show(c)
+                break
+            a_, b_ = strip(kids[0]), strip(kids[1])
+            if op == ">":
+                a_, b_, op = b_, a_, "<"
+            runmin = b_.get("k") == "Ref" and b_.get("n") in outer
+            if op == "<" and runmin:
+                # the running minimum is updated to the new key in this branch
+                upd = any(x["k"] == "Bin" and x.get("asg") and x["op"] == "=" and strip(x["c"][0]).get("n") == b_["n"] for x in walk(iff["then"]))
+                if not upd:
+                    ok, why = False, "the running minimum `%s` is not updated where the candidate is replaced" % b_["n"]
+                    break
+            elif op == "==" and i_ < len(conds) - 1 and (runmin or (a_.get("k") == "Ref" and a_.get("n") in outer)):
+                continue
+            else:
+                ok, why = False, "the candidate is replaced under `%s`" % show(c)
+                break
+        if ok and strip(conds[-1][0]).get("op") not in ("<", ">"):
+            ok, why = False, "the innermost condition `%s` is not a strict comparison" % show(conds[-1][0])
+        chk.instance(r_st, key, sample=dict(function=sc["q"], line=asg["l"], conditions=[show(c) for c, _ in conds]))
+        if not ok:
+            chk.violation(r_st, key, "%s replaces its candidate at line %d although the new connection is not strictly nearer (%s): of two equally near connections the LATER one wins, so re-ordering an already ordered connection set - which every COMPDAT / WPIMULT / WELOPEN on the well does - permutes connections that were not targeted" % (sc["q"], asg["l"], why), sc["file"], asg["l"])
+    sw = [n for n in walk(ot["body"]) if n["k"] == "Call" and (n.get("fn") or "").endswith("swap")]
+    chk.instance(r_st, "orderTRACK:swap", sample=dict(swaps=[show(n) for n in sw]))
+
     chk.assumptions += ["dimension table FIELDS/CELL in rules/C06.py (CF and Kh are L^3 in SI, Ke L^2, radii and lengths L, skin and the Peaceman denominator dimensionless); numeric literals are dimension-polymorphic (sentinels such as -1.0)"]
